@@ -209,3 +209,37 @@ def stall_oracle(ctx, n, sigprefix='schedule'):
            'rule': f'{n} tiny inputs (2-3 sources, 1-3 messages) under delay plans with stalls of up to ~1-3 s between sends; stdout must equal the reference merge'}
     ctx.log(f'oracle long-stall: {evals} runs, {len(failures)} failures')
     return res, cases
+
+
+def many_sources_oracle(ctx, nfiles=None, sigprefix='schedule'):
+    """Hundreds of sources in one run, each with more messages than the channel holds: every worker blocks on its full
+    channel until the coordinator starts printing, and the coordinator prints nothing until EVERY source has delivered its
+    first message -- so anything that lets only a bounded number of workers run at a time (a pool, a semaphore on open
+    files) deadlocks here and nowhere else (seeded change C06-d). stdout must be the reference merge, within a time limit."""
+    import shutil
+    rng = e2e.Rng(ctx.seed * 7919 + 11)
+    nfiles = nfiles or ctx.q(620, 1500)
+    work = os.path.join(ctx.work, 'many')
+    shutil.rmtree(work, ignore_errors=True)
+    os.makedirs(work)
+    base = 1672531200
+    srcs = []
+    for i in range(nfiles):
+        n = 7 + (i % 3)
+        lines = [e2e.fmt_ts(base + i + k * nfiles).encode() + b' f%04d line %d\n' % (i, k) for k in range(n)]
+        path = os.path.join(work, 'f%04d.log' % i)
+        open(path, 'wb').write(b''.join(lines))
+        srcs.append({'path': path, 'msgs': [(base + i + k * nfiles, lines[k]) for k in range(n)]})
+    exp = b''.join(m[1] for _, m in e2e.merge_expected([s['msgs'] for s in srcs]))
+    failures = []
+    rc, out, err, wall = e2e.s4(e2e.BASE_ARGS + [s['path'] for s in srcs], timeout=90)
+    desc = {'sources': nfiles, 'messages_per_source': '7-9 (channel capacity 5)', 'wall_s': round(wall, 1)}
+    if rc not in (0, 1) or rc is None:
+        failures.append({'signature': sigprefix + ':run-does-not-end-with-many-sources', 'case': desc,
+                         'detail': f'rc={rc} after {wall:.0f} s; {len(out)} of {len(exp)} bytes on stdout; stderr {err[-200:]!r}'})
+    elif out != exp:
+        failures.append({'signature': sigprefix + ':stdout-differs-with-many-sources', 'case': desc, 'detail': f'rc={rc} ' + first_diff(out, exp)})
+    shutil.rmtree(work, ignore_errors=True)
+    ctx.log(f'oracle many-sources: {nfiles} sources, rc={rc}, {wall:.1f} s, {len(failures)} failures')
+    return {'evaluations': 1, 'distinct_nontrivial': 1, 'failures': failures, 'samples': [{'oracle': 'many sources', 'case': desc}],
+            'rule': f'{nfiles} text logs of 7-9 messages (more than the channel capacity) with globally distinct instants in one run: the run must end and stdout must be the reference merge'}
